@@ -3,7 +3,7 @@ Same rules as models.py: documented contract only, concrete shapes, scalars may 
 import re, functools
 import z3
 from .engine import *
-from .models import (M, model, deref, d1, unguard, It, it_list, as_it, some, clone_val, map_find, hash_order, as_slice,
+from .models import (M, model, ckey, deref, d1, unguard, It, it_list, as_it, some, clone_val, map_find, hash_order, as_slice,
                      _into_iter, int_ty, _map_insert)
 
 
@@ -757,6 +757,10 @@ def _s_lower(e, c, a): return StrBuf(pystr(a[0]).lower())
 def _s_upper(e, c, a): return StrBuf(pystr(a[0]).upper())
 @model('str::split')
 def _s_split(e, c, a): return it_list(pystr(a[0]).split(pystr(a[1])))
+@model('str::split_whitespace', 'str::split_ascii_whitespace')
+def _s_split_ws(e, c, a): return it_list(pystr(a[0]).split())
+@model('str::lines')
+def _s_lines(e, c, a): return it_list(pystr(a[0]).splitlines())
 @model('str::chars')
 def _s_chars(e, c, a): return it_list([ord(ch) for ch in pystr(a[0])])
 @model('str::bytes')
@@ -819,5 +823,49 @@ def _panic(e, c, a): raise RustPanic('explicit panic: ' + strip_generics(c))
 @model('hint::black_box', 'convert::identity')
 def _identity(e, c, a): return a[0]
 
+# ---------------------------------------------------------------- BTreeSet: a SetObj whose element list is kept in ascending order (keys must be concrete)
+def _bt_sorted(e, refs_or_vals):
+    ks = [ckey(x) for x in refs_or_vals]
+    if any(k is None for k in ks): raise Unsupported('BTreeSet with symbolic keys')
+    return [x for _, x in sorted(zip(ks, refs_or_vals), key=lambda p: p[0])]
+@model('BTreeSet::new', '<BTreeSet as Default>::default', 'BTreeSet::default')
+def _bt_new(e, c, a): return SetObj()
+@model('BTreeSet::insert')
+def _bt_insert(e, c, a):
+    s = unguard(a[0]); r = M['HashSet::insert'](e, c, a)
+    s.e[:] = _bt_sorted(e, s.e); return r
+@model('BTreeSet::iter', 'BTreeSet::into_iter')
+def _bt_iter(e, c, a):
+    s = unguard(a[0]); return it_list([Ref(s.e, i) for i in range(len(s.e))])
+@model('BTreeSet::first', 'BTreeSet::last')
+def _bt_first(e, c, a):
+    s = unguard(a[0])
+    if not s.e: return NONE()
+    return Some(Ref(s.e, 0 if c.endswith('first') else len(s.e) - 1))
+@model('BTreeSet::append')
+def _bt_append(e, c, a):
+    s, o = unguard(a[0]), unguard(a[1])
+    for x in list(o.e): M['HashSet::insert'](e, c, [s, x])
+    o.e[:] = []; s.e[:] = _bt_sorted(e, s.e); return UNIT
+@model('BTreeSet::extend')
+def _bt_extend(e, c, a):
+    s = unguard(a[0]); it = as_it(e, c, a[1])
+    while True:
+        v = it.nxt(e)
+        if v is None: break
+        M['HashSet::insert'](e, c, [s, deref(v) if c.count('&') else v])
+    s.e[:] = _bt_sorted(e, s.e); return UNIT
+def _bt_wrap(name):
+    base = M[name]
+    def f(e, c, a):
+        r = base(e, c, a)
+        if isinstance(r, It) and hasattr(r, 'vals'): return it_list(_bt_sorted(e, list(r.vals)))
+        return r
+    f.model_name = 'BTreeSet::' + name.split('::')[1]
+    return f
+
 def install(engine):
+    for k in list(M):
+        if k.startswith('HashSet::') and ('BTreeSet::' + k[9:]) not in M:
+            M['BTreeSet::' + k[9:]] = _bt_wrap(k) if k[9:] in ('union', 'intersection', 'difference', 'symmetric_difference') else M[k]
     engine.models.update(M)
